@@ -1607,7 +1607,7 @@ def run(ctx):
             ctx.count('corpus_cases')
         ctx.case_index = None
 
-    N = ctx.pick(900, 4500)
+    N = ctx.pick(900, 9000)
     for i, rng in ctx.cases(N, 'expr'):
         one(i, rng, build_expr, 'expr')
 
@@ -1618,7 +1618,7 @@ def run(ctx):
             ctx.seen('table_ops', f.split(':')[0])
         return e, {'table_ops': feats}
 
-    NT = ctx.pick(150, 700)
+    NT = ctx.pick(150, 1400)
     for i, rng in ctx.cases(NT, 'table'):
         one(i, rng, build_table, 'table')
 
